@@ -26,7 +26,7 @@ import json
 import logging
 
 from harness import vloop
-from harness.c01 import PROTO_CLASS, id_token
+from harness.c02_util import PROTO_CLASS, id_token
 from harness.rig import Rig
 
 FILLER_ID = 990099
